@@ -86,27 +86,33 @@ impl World {
   /// run a command that waits for confirmations (batch etching): mine a block whenever it is still running
   pub fn cli_mining(&self, args: &[&str], max_blocks: u64) -> Result<CliOut> {
     self.sync()?;
-    let child = self.command(args).spawn()?;
-    let (tx, rx) = std::sync::mpsc::channel();
-    std::thread::spawn(move || {
-      let _ = tx.send(child.wait_with_output());
-    });
+    let mut child = self.command(args).spawn()?;
+    let t0 = std::time::Instant::now();
     let mut mined = 0;
+    let mut last_mine = std::time::Instant::now();
     loop {
-      match rx.recv_timeout(std::time::Duration::from_millis(700)) {
-        Ok(out) => {
-          let out = out?;
-          let stdout = String::from_utf8_lossy(&out.stdout).to_string();
-          let json = serde_json::from_str(&stdout).unwrap_or(Value::Null);
-          return Ok(CliOut { ok: out.status.success(), stdout, stderr: String::from_utf8_lossy(&out.stderr).to_string(), json });
-        }
-        Err(_) => {
-          if mined < max_blocks {
-            self.mine(1)?;
-            mined += 1;
-          }
-        }
+      if child.try_wait()?.is_some() {
+        let out = child.wait_with_output()?;
+        let stdout = String::from_utf8_lossy(&out.stdout).to_string();
+        let json = serde_json::from_str(&stdout).unwrap_or(Value::Null);
+        return Ok(CliOut { ok: out.status.success(), stdout, stderr: String::from_utf8_lossy(&out.stderr).to_string(), json });
       }
+      if t0.elapsed() > std::time::Duration::from_secs(180) {
+        let _ = child.kill();
+        let out = child.wait_with_output()?;
+        return Ok(CliOut {
+          ok: false,
+          stdout: String::from_utf8_lossy(&out.stdout).to_string(),
+          stderr: format!("driver: command did not finish within 180 s; stderr tail: {}", String::from_utf8_lossy(&out.stderr).chars().rev().take(300).collect::<String>().chars().rev().collect::<String>()),
+          json: Value::Null,
+        });
+      }
+      if mined < max_blocks && last_mine.elapsed() > std::time::Duration::from_millis(600) {
+        self.mine(1)?;
+        mined += 1;
+        last_mine = std::time::Instant::now();
+      }
+      std::thread::sleep(std::time::Duration::from_millis(100));
     }
   }
 }
@@ -446,20 +452,36 @@ impl Ctx {
   }
 
   /// run one wallet command for real, mine it, and record everything the specification needs
-  fn op(&mut self, kind: &str, req: Value, args: Vec<String>, dests: &[Address]) -> Result<()> {
+  fn op(&mut self, kind: &str, req: Value, mut args: Vec<String>, dests: &[Address], dry: bool) -> Result<()> {
     self.w.sync()?;
     let (inv, utxos_before) = self.inventory()?;
     let burned_before = self.burned()?;
     self.w.core.state().locked.clear();
+    if dry {
+      args.insert(2, "--dry-run".into());
+    }
     let argv: Vec<&str> = args.iter().map(|s| s.as_str()).collect();
     let out = self.w.cli(&argv)?;
-    let mempool: Vec<Transaction> = self.w.core.state().mempool.clone();
+    let mut mempool: Vec<Transaction> = self.w.core.state().mempool.clone();
+    let broadcast = mempool.len();
+    if dry && out.ok {
+      // nothing is signed or broadcast: the transaction is the one in the returned PSBT
+      if let Some(tx) = out.json["psbt"]
+        .as_str()
+        .and_then(|b| base64::engine::general_purpose::STANDARD.decode(b).ok())
+        .and_then(|b| bitcoin::Psbt::deserialize(&b).ok())
+        .map(|p| p.unsigned_tx)
+      {
+        mempool = vec![tx];
+      }
+    }
     let locked: Vec<OutPoint> = self.w.core.state().locked.iter().copied().collect();
     let locked_labels: Vec<String> = locked.iter().filter(|o| utxos_before.contains_key(o)).map(|o| self.label(*o)).collect::<Vec<_>>();
     let big_unlocked_cardinals = utxos_before.iter().filter(|(o, v)| v.to_sat() >= 50 * BTC && !locked.contains(o)).count();
     let mut row = json!({"event": "Op", "kind": kind, "req": req, "inv": inv, "ok": out.ok,
       "err": if out.ok { "".to_string() } else { Self::classify_err(&out.stderr) },
-      "panic": out.stderr.contains("panicked"), "locked": locked_labels, "ntx": mempool.len(), "cardinals": big_unlocked_cardinals, "tag": self.tag});
+      "panic": out.stderr.contains("panicked"), "locked": locked_labels, "ntx": if dry { mempool.len() } else { broadcast }, "broadcast": broadcast, "dry": dry,
+      "cardinals": big_unlocked_cardinals, "tag": self.tag});
     if let Some(tx) = mempool.first().cloned() {
       let txid = tx.compute_txid();
       let ins: Vec<Value> = tx
@@ -501,10 +523,12 @@ impl Ctx {
           s.mint.map(|m| self.runes.iter().position(|r| r.id == m).map(|i| i + 1).unwrap_or(0)).unwrap_or(0),
         ),
       };
-      self.w.mine(1)?;
+      if !dry {
+        self.w.mine(1)?;
+      }
       let mut after = Vec::new();
       for vout in 0..tx.output.len() {
-        let b = self.balances(OutPoint { txid, vout: vout as u32 })?;
+        let b = if dry { Vec::new() } else { self.balances(OutPoint { txid, vout: vout as u32 })? };
         after.push(b.iter().map(|(r, a)| json!([r, a])).collect::<Vec<_>>());
       }
       let burned_after = self.burned()?;
@@ -520,9 +544,102 @@ impl Ctx {
       row["hasTx"] = json!(true);
     } else {
       row["hasTx"] = json!(false);
-      self.w.mine(1)?;
+      if !dry {
+        self.w.mine(1)?;
+      }
     }
     self.rows.push(row);
+    Ok(())
+  }
+
+  /// boundary amounts of rune r: 1, every prefix sum of the holders' balances (in outpoint order) and its neighbours
+  fn boundary_amounts(&mut self, r: usize) -> Result<Vec<u128>> {
+    let mut v = vec![0u128, 1];
+    let mut acc = 0u128;
+    for (o, _) in self.wallet_utxos() {
+      if self.insc_count(o)? > 0 {
+        continue;
+      }
+      if let Some((_, a)) = self.balances(o)?.into_iter().find(|(q, _)| *q == r) {
+        acc += a;
+        v.extend([acc.saturating_sub(1), acc, acc + 1]);
+      }
+    }
+    v.sort();
+    v.dedup();
+    Ok(v)
+  }
+
+  /// every boundary request against the current inventory, as dry runs (nothing is broadcast)
+  pub fn systematic_dry_ops(&mut self, max_split: usize) -> Result<()> {
+    let nr = self.runes.len();
+    let mut bounds = Vec::new();
+    for r in 1..=nr {
+      bounds.push(self.boundary_amounts(r)?);
+    }
+    for r in 1..=nr {
+      let info = self.runes[r - 1].clone();
+      for amt in bounds[r - 1].clone() {
+        let dest = self.foreign[0].clone();
+        let args = vec!["wallet".into(), "send".into(), "--fee-rate".into(), "1".into(), dest.to_string(), format!("{}:{}", decimal(amt, info.div), info.name)];
+        self.op("send", json!({"r": r, "amt": amt}), args, &[dest], true)?;
+        let args = vec!["wallet".into(), "burn".into(), "--fee-rate".into(), "1".into(), format!("{}:{}", decimal(amt, info.div), info.name)];
+        self.op("burn", json!({"r": r, "amt": amt}), args, &[], true)?;
+      }
+    }
+    // one-output splits: every combination of (absent | boundary amount) per rune, sampled down to max_split
+    let mut combos: Vec<Vec<(usize, u128)>> = vec![Vec::new()];
+    for r in 1..=nr {
+      let mut next = Vec::new();
+      for c in &combos {
+        next.push(c.clone());
+        for a in &bounds[r - 1] {
+          let mut c2 = c.clone();
+          c2.push((r, *a));
+          next.push(c2);
+        }
+      }
+      combos = next;
+    }
+    combos.retain(|c| !c.is_empty());
+    while combos.len() > max_split {
+      let k = self.rng.gen_range(0..combos.len());
+      combos.swap_remove(k);
+    }
+    for (n, c) in combos.into_iter().enumerate() {
+      // sometimes spread the same totals over two outputs
+      let two = self.rng.gen_bool(0.3);
+      let mut outs: Vec<Vec<(usize, u128)>> = vec![Vec::new()];
+      if two {
+        outs.push(Vec::new());
+      }
+      for (r, a) in &c {
+        if two && *a >= 2 {
+          let x = self.rng.gen_range(1..*a);
+          outs[0].push((*r, x));
+          outs[1].push((*r, a - x));
+        } else {
+          outs[0].push((*r, *a));
+        }
+      }
+      outs.retain(|o| !o.is_empty());
+      let mut yaml = String::from("outputs:\n");
+      let mut dests = Vec::new();
+      for (k, o) in outs.iter().enumerate() {
+        let dest = self.foreign[k].clone();
+        yaml.push_str(&format!("- address: {dest}\n  runes:\n"));
+        for (r, a) in o {
+          let i = &self.runes[r - 1];
+          yaml.push_str(&format!("    {}: {}\n", i.name, decimal(*a, i.div)));
+        }
+        dests.push(dest);
+      }
+      let path = self.w.data.path().join(format!("dsplit{}_{n}.yaml", self.rows.len()));
+      std::fs::write(&path, yaml)?;
+      let req = json!({"outs": outs.iter().map(|o| o.iter().map(|(r, a)| json!([r, a])).collect::<Vec<_>>()).collect::<Vec<_>>()});
+      let args = vec!["wallet".into(), "split".into(), "--fee-rate".into(), "1".into(), "--splits".into(), path.display().to_string()];
+      self.op("split", req, args, &dests, true)?;
+    }
     Ok(())
   }
 
@@ -576,12 +693,12 @@ impl Ctx {
           args.insert(2, "--postage".into());
           args.insert(3, "777sat".into());
         }
-        self.op("send", json!({"r": r, "amt": amt}), args, &[dest])
+        self.op("send", json!({"r": r, "amt": amt}), args, &[dest], false)
       }
       3..=4 => {
         let amt = self.pick_amount(r, &tot, &first);
         let args = vec!["wallet".into(), "burn".into(), "--fee-rate".into(), fee, format!("{}:{}", decimal(amt, info.div), info.name)];
-        self.op("burn", json!({"r": r, "amt": amt}), args, &[])
+        self.op("burn", json!({"r": r, "amt": amt}), args, &[], false)
       }
       5..=7 => {
         let n = self.rng.gen_range(1..=3usize);
@@ -616,13 +733,13 @@ impl Ctx {
         let path = self.w.data.path().join(format!("split{}.yaml", self.rows.len()));
         std::fs::write(&path, yaml)?;
         let args = vec!["wallet".into(), "split".into(), "--fee-rate".into(), fee, "--splits".into(), path.display().to_string()];
-        self.op("split", json!({"outs": outs}), args, &dests)
+        self.op("split", json!({"outs": outs}), args, &dests, false)
       }
       8 => {
         if let Some(t) = self.runes.iter().position(|r| r.terms) {
           let name = self.runes[t].name.clone();
           let args = vec!["wallet".into(), "mint".into(), "--fee-rate".into(), fee, "--rune".into(), name];
-          self.op("mint", json!({"r": t + 1}), args, &[])
+          self.op("mint", json!({"r": t + 1}), args, &[], false)
         } else {
           Ok(())
         }
@@ -630,7 +747,7 @@ impl Ctx {
       _ => {
         let dest = self.foreign[7].clone();
         let args = vec!["wallet".into(), "send".into(), "--fee-rate".into(), fee, dest.to_string(), "3btc".into()];
-        self.op("sendbtc", json!({}), args, &[dest])
+        self.op("sendbtc", json!({}), args, &[dest], false)
       }
     }
   }
@@ -647,7 +764,7 @@ fn name_of(n: usize) -> String {
 }
 
 /// ordv wallet-runes --seed N --worlds W --ops K --out trace.ndjson
-pub fn runes_trace(seed: u64, worlds: usize, ops: usize, out: &str) -> Result<()> {
+pub fn runes_trace(seed: u64, worlds: usize, ops: usize, dry_splits: usize, out: &str) -> Result<()> {
   let mut all = Vec::new();
   for wi in 0..worlds {
     let s = seed.wrapping_mul(1000).wrapping_add(wi as u64);
@@ -675,6 +792,7 @@ pub fn runes_trace(seed: u64, worlds: usize, ops: usize, out: &str) -> Result<()
         .collect()
     };
     c.rows.push(json!({"event": "World", "runes": runes, "tag": c.tag}));
+    c.systematic_dry_ops(dry_splits)?;
     for _ in 0..ops {
       c.random_op()?;
     }
@@ -796,7 +914,12 @@ impl Ctx {
       _ => 3,
     };
     for _ in 0..mutations {
-      match self.rng.gen_range(0..13) {
+      match self.rng.gen_range(0..14) {
+        13 => {
+          // the wallet would PAY the named amount instead of receiving it
+          named = [5_000i64, 9_000, 1][self.rng.gen_range(0..3)];
+          price = -named;
+        }
         11 | 12 => {
           // a buyer signature the node will not preserve
           if let Some(k) = ins.iter().position(|x| !pool.outs[x.0].3) {
@@ -928,6 +1051,291 @@ pub fn offers_trace(seed: u64, worlds: usize, cases: usize, out: &str) -> Result
       "outs": pool.outs.iter().map(|o| json!({"name": o.0, "wallet": o.3, "insc": o.4, "runes": o.5})).collect::<Vec<_>>()}));
     for n in 0..cases {
       c.offer_case(&pool, n)?;
+    }
+    c.w.handle.shutdown();
+    all.append(&mut c.rows);
+  }
+  crate::write_trace(out, &all)
+}
+
+// ------------------------------------------------------------------------------------------------
+// C21 driver: random batch files through the real `ord wallet batch`, mined and indexed.
+
+impl World {
+  pub fn get_json(&self, path: &str) -> Result<Value> {
+    let resp = reqwest::blocking::Client::new()
+      .get(format!("http://127.0.0.1:{}{path}", self.port))
+      .header("accept", "application/json")
+      .send()?;
+    Ok(resp.json().unwrap_or(Value::Null))
+  }
+}
+
+struct BatchState {
+  /// parent label -> inscription id
+  parents: Vec<(String, ord::InscriptionId)>,
+  labels: BTreeMap<ord::InscriptionId, String>,
+  small: Vec<OutPoint>,
+  rune_no: usize,
+}
+
+impl Ctx {
+  fn owner(&self, s: &ScriptBuf) -> String {
+    if self.is_wallet_script(s) {
+      "wallet".into()
+    } else if let Some(k) = self.foreign.iter().position(|a| a.script_pubkey() == *s) {
+      format!("d{}", k + 1)
+    } else if s.is_op_return() {
+      "opret".into()
+    } else {
+      "other".into()
+    }
+  }
+
+  fn tx_of(&self, txid: Txid) -> Option<Transaction> {
+    self.w.core.state().transactions.get(&txid).cloned()
+  }
+
+  fn batch_op(&mut self, bs: &mut BatchState, n_op: usize) -> Result<()> {
+    self.w.sync()?;
+    let modes = ["shared-output", "separate-outputs", "same-sat", "satpoints"];
+    let mut mode = modes[self.rng.gen_range(0..4)];
+    let count = self.rng.gen_range(1..=4usize);
+    // earlier commit transactions may have spent some of the small cardinals
+    let live = self.wallet_utxos();
+    bs.small.retain(|o| live.contains_key(o));
+    if mode == "satpoints" && bs.small.len() < count {
+      mode = "separate-outputs";
+    }
+    let postage: Option<u64> = match self.rng.gen_range(0..4) {
+      0 => None,
+      1 => Some(777),
+      2 => Some(12_345),
+      _ => Some(3_000),
+    };
+    let n_par = self.rng.gen_range(0..=bs.parents.len().min(2));
+    let mut par_idx: Vec<usize> = (0..bs.parents.len()).collect();
+    for i in (1..par_idx.len()).rev() {
+      par_idx.swap(i, self.rng.gen_range(0..=i));
+    }
+    par_idx.truncate(n_par);
+    let etch = self.rng.gen_bool(0.25);
+    let premine: u128 = if etch { [0u128, 1000, 25][self.rng.gen_range(0..3)] } else { 0 };
+    let divisibility = self.rng.gen_range(0..3u8);
+    let mut yaml = format!("mode: {mode}\n");
+    if !par_idx.is_empty() {
+      yaml.push_str("parents:\n");
+      for i in &par_idx {
+        yaml.push_str(&format!("- {}\n", bs.parents[*i].1));
+      }
+    }
+    if mode != "satpoints" {
+      if let Some(p) = postage {
+        yaml.push_str(&format!("postage: {p}\n"));
+      }
+    }
+    let mut rune_name = String::new();
+    if etch {
+      bs.rune_no += 1;
+      rune_name = format!("BATCHRUNEAAAA{}", name_of(self.rng.gen_range(0..400_000) + bs.rune_no));
+      let terms = self.rng.gen_bool(0.5) || premine == 0;
+      let supply = premine + if terms { 5 * 10 } else { 0 };
+      yaml.push_str(&format!(
+        "etching:\n  rune: {rune_name}\n  divisibility: {divisibility}\n  premine: {}\n  supply: {}\n  symbol: $\n  turbo: false\n",
+        decimal(premine, divisibility),
+        decimal(supply, divisibility)
+      ));
+      if terms {
+        yaml.push_str(&format!("  terms:\n    amount: {}\n    cap: 5\n", decimal(10, divisibility)));
+      }
+    }
+    yaml.push_str("inscriptions:\n");
+    let mut satpoints = Vec::new();
+    let mut sat_values = Vec::new();
+    let mut dests: Vec<Option<Address>> = Vec::new();
+    for k in 0..count {
+      let path = self.w.data.path().join(format!("b{n_op}_{k}.txt"));
+      std::fs::write(&path, format!("verif batch {n_op} {k} {}", self.tag))?;
+      yaml.push_str(&format!("- file: {}\n", path.display()));
+      if mode == "satpoints" {
+        let o = bs.small.remove(0);
+        sat_values.push(self.wallet_utxos()[&o].to_sat());
+        yaml.push_str(&format!("  satpoint: {o}:0\n"));
+        satpoints.push(o);
+      }
+      if (mode == "separate-outputs" || mode == "satpoints") && self.rng.gen_bool(0.4) {
+        let d = self.foreign[self.rng.gen_range(0..4)].clone();
+        yaml.push_str(&format!("  destination: {d}\n"));
+        dests.push(Some(d));
+      } else {
+        dests.push(None);
+      }
+      if self.rng.gen_bool(0.3) {
+        yaml.push_str(&format!("  metadata:\n    title: item {k}\n    n: {k}\n"));
+      }
+      if self.rng.gen_bool(0.2) && !bs.parents.is_empty() {
+        yaml.push_str(&format!("  delegate: {}\n", bs.parents[0].1));
+      }
+    }
+    let path = self.w.data.path().join(format!("batch{n_op}.yaml"));
+    std::fs::write(&path, &yaml)?;
+    // before
+    let (inv, utxos_before) = self.inventory()?;
+    let non_cardinal: std::collections::BTreeSet<OutPoint> = utxos_before
+      .keys()
+      .filter(|o| !self.balances(**o).unwrap_or_default().is_empty() || self.insc_count(**o).unwrap_or(0) > 0)
+      .copied()
+      .collect();
+    let mut parent_before = Vec::new();
+    for i in &par_idx {
+      let sp = self.w.index.get_inscription_satpoint_by_id(bs.parents[*i].1)?.ok_or_else(|| anyhow!("parent satpoint"))?;
+      parent_before.push(sp.outpoint);
+    }
+    self.w.core.state().locked.clear();
+    let fee_rate = ["1", "2.5", "5"][self.rng.gen_range(0..3)];
+    let args = vec!["wallet".to_string(), "batch".into(), "--fee-rate".into(), fee_rate.into(), "--batch".into(), path.display().to_string()];
+    let argv: Vec<&str> = args.iter().map(|s| s.as_str()).collect();
+    let out = if etch { self.w.cli_mining(&argv, 9)? } else { self.w.cli(&argv)? };
+    self.w.mine(1)?;
+    let _ = inv;
+    let effective_postages: Vec<u64> = if mode == "satpoints" { sat_values.clone() } else { (0..count).map(|_| postage.unwrap_or(10_000)).collect() };
+    let mut row = json!({"event": "Batch", "tag": self.tag, "n": n_op, "mode": mode, "count": count, "postages": effective_postages,
+      "nparents": par_idx.len(), "parents": par_idx.iter().map(|i| bs.parents[*i].0.clone()).collect::<Vec<_>>(),
+      "etch": etch, "premine": premine, "ok": out.ok, "panic": out.stderr.contains("panicked"),
+      "err": if out.ok { "".to_string() } else { out.stderr.lines().next().unwrap_or("").chars().take(160).collect::<String>() }});
+    if !out.ok {
+      // satpoints that were not consumed stay available
+      for o in satpoints {
+        if self.wallet_utxos().contains_key(&o) {
+          bs.small.push(o);
+        }
+      }
+      self.rows.push(row);
+      return Ok(());
+    }
+    let j = &out.json;
+    let reveal: Txid = j["reveal"].as_str().unwrap_or("").parse().map_err(|_| anyhow!("no reveal txid in {}", out.stdout))?;
+    let commit: Txid = j["commit"].as_str().unwrap_or("").parse().map_err(|_| anyhow!("no commit txid"))?;
+    let reveal_tx = self.tx_of(reveal);
+    let commit_tx = self.tx_of(commit);
+    row["mined"] = json!(reveal_tx.is_some() && commit_tx.is_some());
+    let mut reported = Vec::new();
+    let mut indexed = Vec::new();
+    let empty = Vec::new();
+    for (i, r) in j["inscriptions"].as_array().unwrap_or(&empty).iter().enumerate() {
+      let id: ord::InscriptionId = r["id"].as_str().unwrap_or("").parse().map_err(|_| anyhow!("bad id"))?;
+      let loc: ordinals::SatPoint = r["location"].as_str().unwrap_or("").parse().map_err(|_| anyhow!("bad location"))?;
+      let dest = r["destination"].as_str().unwrap_or("").to_string();
+      let script_at = |sp: &ordinals::SatPoint| -> Option<ScriptBuf> {
+        self.tx_of(sp.outpoint.txid).and_then(|t| t.output.get(sp.outpoint.vout as usize).map(|o| o.script_pubkey.clone()))
+      };
+      let dest_script = dest.parse::<Address<bitcoin::address::NetworkUnchecked>>().ok().map(|a| a.assume_checked().script_pubkey());
+      let want_dest = dests.get(i).cloned().flatten().map(|a| a.script_pubkey());
+      reported.push(json!({"idOk": id.txid == reveal && id.index as usize == i, "sameTx": loc.outpoint.txid == reveal, "vout": loc.outpoint.vout, "off": loc.offset,
+        "destOk": dest_script.is_some() && script_at(&loc) == dest_script,
+        "destAsAsked": want_dest.is_none() || want_dest == dest_script}));
+      let entry = self.w.index.get_inscription_entry(id)?;
+      let sp = self.w.index.get_inscription_satpoint_by_id(id)?;
+      let info = self.w.get_json(&format!("/inscription/{id}"))?;
+      let parents: Vec<String> = info["parents"]
+        .as_array()
+        .unwrap_or(&empty)
+        .iter()
+        .map(|p| p.as_str().and_then(|s| s.parse::<ord::InscriptionId>().ok()).and_then(|p| bs.labels.get(&p).cloned()).unwrap_or("?".into()))
+        .collect();
+      indexed.push(match (entry, sp) {
+        (Some(e), Some(sp)) => json!({"exists": true, "sameTx": sp.outpoint.txid == reveal, "vout": sp.outpoint.vout, "off": sp.offset,
+          "parents": parents, "owner": script_at(&sp).map(|s| self.owner(&s)).unwrap_or("none".into()), "num": e.inscription_number,
+          "apiSatpoint": info["satpoint"].as_str().unwrap_or("") == sp.to_string()}),
+        _ => json!({"exists": false, "sameTx": false, "vout": -1, "off": -1, "parents": [], "owner": "none", "num": 0, "apiSatpoint": false}),
+      });
+      bs.labels.insert(id, format!("n{n_op}_{i}"));
+    }
+    let extra_id = ord::InscriptionId { txid: reveal, index: reported.len() as u32 };
+    row["extra"] = json!(self.w.index.get_inscription_entry(extra_id)?.is_some());
+    row["reported"] = json!(reported);
+    row["indexed"] = json!(indexed);
+    row["reportedParents"] = json!(j["parents"].as_array().unwrap_or(&empty).iter()
+      .map(|p| p.as_str().and_then(|s| s.parse::<ord::InscriptionId>().ok()).and_then(|p| bs.labels.get(&p).cloned()).unwrap_or("?".into())).collect::<Vec<_>>());
+    let mut parents_after = Vec::new();
+    for (k, i) in par_idx.iter().enumerate() {
+      let sp = self.w.index.get_inscription_satpoint_by_id(bs.parents[*i].1)?.ok_or_else(|| anyhow!("parent satpoint after"))?;
+      let script = self.tx_of(sp.outpoint.txid).and_then(|t| t.output.get(sp.outpoint.vout as usize).map(|o| o.script_pubkey.clone()));
+      parents_after.push(json!({"l": bs.parents[*i].0, "sameTx": sp.outpoint.txid == reveal, "vout": sp.outpoint.vout, "off": sp.offset,
+        "owner": script.map(|s| self.owner(&s)).unwrap_or("none".into()), "moved": sp.outpoint != parent_before[k]}));
+    }
+    row["parentsAfter"] = json!(parents_after);
+    if let Some(ct) = &commit_tx {
+      row["commitIns"] = json!(ct.input.iter().map(|i| json!({"o": self.label(i.previous_output), "nc": non_cardinal.contains(&i.previous_output),
+        "wallet": utxos_before.contains_key(&i.previous_output)})).collect::<Vec<_>>());
+    }
+    if let Some(rt) = &reveal_tx {
+      row["revealIns"] = json!(rt.input.iter().map(|i| json!({"o": self.label(i.previous_output), "nc": non_cardinal.contains(&i.previous_output),
+        "isParent": parent_before.contains(&i.previous_output), "isSatpoint": satpoints.contains(&i.previous_output),
+        "isCommit": i.previous_output.txid == commit})).collect::<Vec<_>>());
+      row["revealOuts"] = json!(rt.output.iter().map(|o| json!({"v": o.value.to_sat().min(2_000_000_000), "owner": self.owner(&o.script_pubkey)})).collect::<Vec<_>>());
+    }
+    if etch {
+      let rj = &j["rune"];
+      let rune: Rune = rune_name.parse().unwrap();
+      let entry = self.w.index.rune(rune)?;
+      let loc: Option<OutPoint> = rj["location"].as_str().and_then(|s| s.parse().ok());
+      let bal = match loc {
+        Some(o) => self
+          .w
+          .index
+          .get_rune_balances_for_output(o)?
+          .unwrap_or_default()
+          .into_iter()
+          .find(|(sr, _)| sr.rune == rune)
+          .map(|(_, p)| p.amount)
+          .unwrap_or(0),
+        None => 0,
+      };
+      let loc_owner = loc.and_then(|o| self.tx_of(o.txid).and_then(|t| t.output.get(o.vout as usize).map(|x| self.owner(&x.script_pubkey)))).unwrap_or("none".into());
+      row["rune"] = json!({"reported": !rj.is_null(), "nameOk": rj["rune"].as_str().map(|s| s.replace('•', "")) == Some(rune_name.clone()),
+        "exists": entry.is_some(), "premineIdx": entry.as_ref().map(|(_, e, _)| e.premine.min(2_000_000_000)).unwrap_or(0),
+        "etchingIsReveal": entry.as_ref().map(|(_, e, _)| e.etching == reveal).unwrap_or(false),
+        "hasLocation": loc.is_some(), "locSameTx": loc.map(|o| o.txid == reveal).unwrap_or(false), "locVout": loc.map(|o| o.vout as i64).unwrap_or(-1),
+        "balAtReported": bal.min(2_000_000_000), "locOwner": loc_owner, "div": divisibility});
+    }
+    self.rows.push(row);
+    Ok(())
+  }
+}
+
+/// ordv wallet-batch --seed N --worlds W --ops K --out trace.ndjson
+pub fn batch_trace(seed: u64, worlds: usize, ops: usize, out: &str) -> Result<()> {
+  let mut all = Vec::new();
+  for wi in 0..worlds {
+    let s = seed.wrapping_mul(1000).wrapping_add(wi as u64);
+    let mut c = Ctx::new(s, &format!("seed={seed} world={wi}"))?;
+    c.w.mine(40)?;
+    let premines = c.etch(1, 60)?;
+    let p1 = c.inscribe(20_000)?;
+    let p2 = c.inscribe(33_000)?;
+    let _junk = c.inscribe(15_000)?;
+    // small cardinals for satpoints mode
+    let (cb, v) = c.take_cardinal(BTC)?;
+    let mut outs = Vec::new();
+    for k in 0..10u64 {
+      let a = c.recv_addr();
+      outs.push(c.pay(&a, 25_000 + 3_000 * k));
+    }
+    let a = c.recv_addr();
+    outs.push(c.pay(&a, v.to_sat() - 10 * 25_000 - 3_000 * 45 - 3000));
+    let stx = c.raw(vec![(cb, Witness::new())], outs);
+    c.w.mine(1)?;
+    c.distribute(premines, 60, 2, None)?;
+    c.w.sync()?;
+    let mut bs = BatchState { parents: Vec::new(), labels: BTreeMap::new(), small: (0..10).map(|k| OutPoint { txid: stx, vout: k }).collect(), rune_no: 0 };
+    for (l, o) in [("P1", p1), ("P2", p2)] {
+      let id = c.w.index.get_inscriptions_for_output(o)?.unwrap_or_default()[0];
+      bs.parents.push((l.to_string(), id));
+      bs.labels.insert(id, l.to_string());
+    }
+    for n in 0..ops {
+      c.batch_op(&mut bs, n)?;
     }
     c.w.handle.shutdown();
     all.append(&mut c.rows);
